@@ -21,6 +21,7 @@ import time
 from . import build as gbuild
 
 VERIF = os.path.dirname(os.path.dirname(os.path.abspath(__file__)))
+OUT = os.environ.get("GTMON_OUT") or VERIF  # evidence/ and replays/ root
 PY = "/venv/bin/python"
 
 
@@ -130,7 +131,7 @@ def merge(results):
 
 
 def write_replay(prop, rec):
-    d = os.path.join(VERIF, "replays")
+    d = os.path.join(OUT, "replays")
     os.makedirs(d, exist_ok=True)
     name = "%s-%s.json" % (
         prop, hashlib.sha1(rec["mechanism"].encode()).hexdigest()[:10])
@@ -180,7 +181,7 @@ def main(argv=None):
         return 2
     reg = REGISTRY[prop]
     t0 = time.time()
-    evidence_path = os.path.join(VERIF, "evidence", "%s.json" % prop)
+    evidence_path = os.path.join(OUT, "evidence", "%s.json" % prop)
 
     def inconclusive_exit(reason):
         print("INCONCLUSIVE property=%s reason=%s" % (prop, reason))
@@ -321,7 +322,7 @@ def main(argv=None):
             print("KNOWN-FINDING: property=%s %s [%s; %s]"
                   % (prop, k["what"], k["id"], seen))
     import glob
-    for old in glob.glob(os.path.join(VERIF, "replays", prop + "-*.json")):
+    for old in glob.glob(os.path.join(OUT, "replays", prop + "-*.json")):
         os.remove(old)
     for v in new:
         path = write_replay(prop, v)
